@@ -13,9 +13,11 @@ import (
 	"errors"
 	"fmt"
 	"math/rand"
+	"net/http"
 	"sort"
 	"strings"
 	"sync"
+	"time"
 
 	"github.com/opencontainers/go-digest"
 	ocispec "github.com/opencontainers/image-spec/specs-go/v1"
@@ -525,6 +527,73 @@ func runC14(seed int64, tier string, sc *Script) map[string]any {
 				}
 			}
 		}
+	}
+	// (a6) a Repository that has not learnt yet whether the registry has the Referrers API, and
+	// whose first operations are several Deletes at once (the answer to the probe is slow, so
+	// all but one of them wait for it): every one of them maintains the index
+	for ri := 0; ri < 6; ri++ {
+		sc.Case("fresh-repository-concurrent-deletes")
+		sc.NonTrivial()
+		reg := newFakeRegistry(regProfile{ReferrersAPI: false, DigestHeaders: ri%2 == 0})
+		reg.hook = func(r *http.Request) {
+			if strings.Contains(r.URL.Path, "/referrers/") {
+				time.Sleep(15 * time.Millisecond)
+			}
+		}
+		repoA, _ := remote.NewRepository(reg.Host() + "/test/repo")
+		repoA.PlainHTTP = true
+		sb := []byte(fmt.Sprintf(`{"schemaVersion":2,"mediaType":%q,"config":{"mediaType":"application/vnd.oci.empty.v1+json","digest":"sha256:44136fa355b3678a1146ad16f7e8649e94fb4fc21fe77e8310c060f61caaff8a","size":2},"layers":[],"annotations":{"fresh":"%d"}}`, ocispec.MediaTypeImageManifest, ri))
+		sub := content.NewDescriptorFromBytes(ocispec.MediaTypeImageManifest, sb)
+		if err := repoA.Push(ctx, sub, bytes.NewReader(sb)); err != nil {
+			panic(err)
+		}
+		var ds []ocispec.Descriptor
+		for i := 0; i < 6; i++ {
+			b := []byte(fmt.Sprintf(`{"schemaVersion":2,"mediaType":%q,"artifactType":"application/vnd.verif.fresh","config":{"mediaType":"application/vnd.oci.empty.v1+json","digest":"sha256:44136fa355b3678a1146ad16f7e8649e94fb4fc21fe77e8310c060f61caaff8a","size":2},"layers":[],"subject":{"mediaType":%q,"digest":%q,"size":%d},"annotations":{"i":"%d"}}`,
+				ocispec.MediaTypeImageManifest, sub.MediaType, sub.Digest, sub.Size, i))
+			d := content.NewDescriptorFromBytes(ocispec.MediaTypeImageManifest, b)
+			if err := repoA.Push(ctx, d, bytes.NewReader(b)); err != nil {
+				panic(err)
+			}
+			ds = append(ds, d)
+		}
+		repoB, _ := remote.NewRepository(reg.Host() + "/test/repo") // knows nothing yet
+		repoB.PlainHTTP = true
+		start := make(chan struct{})
+		var wg sync.WaitGroup
+		derrs := make([]error, 4)
+		for i := 0; i < 4; i++ {
+			wg.Add(1)
+			go func(i int) {
+				defer wg.Done()
+				<-start
+				derrs[i] = repoB.Delete(ctx, ds[i])
+			}(i)
+		}
+		close(start)
+		wg.Wait()
+		verdict := "ok"
+		for i, e := range derrs {
+			if e != nil {
+				verdict = fmt.Sprintf("delete-%d-failed:%s", i, strings.ReplaceAll(e.Error(), " ", "_"))
+			}
+		}
+		var got []string
+		if err := repoB.Referrers(ctx, sub, "", func(rs []ocispec.Descriptor) error {
+			for _, r := range rs {
+				got = append(got, r.Annotations["i"])
+			}
+			return nil
+		}); err != nil {
+			verdict = "listing-failed"
+		}
+		sort.Strings(got)
+		if verdict == "ok" && strings.Join(got, ",") != "4,5" {
+			verdict = "listing-is-not-the-live-set(listed=" + strings.Join(got, ",") + ",live=4,5)"
+		}
+		sc.Op(verdict, "rf fault kind=fresh-repository-concurrent-deletes digesthdr=%v", ri%2 == 0)
+		evals++
+		reg.Close()
 	}
 	// (b) end to end under concurrency
 	rounds := 12
